@@ -369,14 +369,31 @@ func (x *Exec) loadFieldQuiet(st *State, owner, fname string, ty types.Type, obj
 	v := fromComps(ty, func(suffix string, s *Sort) *Term {
 		return x.objGet(st, owner+"."+fname+suffix, s, obj)
 	})
-	x.quietTypeInv(v)
+	x.quietTypeInv(v, st)
 	return v
 }
 
 // quietTypeInv assumes the (state-independent) type invariants of a value read in a contract expression.
-func (x *Exec) quietTypeInv(v Value) {
+func (x *Exec) quietTypeInv(v Value, st *State) {
+	if sc, ok := v.(Scalar); ok && sc.T.S == IntS && sc.T.Op != "lit" && st != nil && st.Next != nil {
+		if op, _ := isOpaque(sc.Ty); op {
+			return
+		}
+		k := sc.T.String() + "|" + st.Next.String()
+		if x.quietInv == nil {
+			x.quietInv = map[string]bool{}
+		}
+		if !x.quietInv[k] {
+			x.quietInv[k] = true
+			x.assumeRef(sc.T, True, st)
+		}
+		return
+	}
 	if sl, ok := v.(SliceV); ok {
-		k := sl.Len.String()
+		k := sl.Len.String() + "|" + sl.Arr.String()
+		if st != nil && st.Next != nil {
+			k += "|" + st.Next.String()
+		}
 		if sl.Cap != nil {
 			k += "|" + sl.Cap.String()
 		}
@@ -387,7 +404,7 @@ func (x *Exec) quietTypeInv(v Value) {
 			return
 		}
 		x.quietInv[k] = true
-		x.assumeTypeInv(v, True, nil)
+		x.assumeTypeInv(v, True, st)
 	}
 }
 
